@@ -484,6 +484,10 @@ def classify(case, sig, zero_chunk):
         return "unknown-elemwise-positional-blocks"
     if case["op"] == "mask_again" and case["phase"] == "before" and sig == "wrong-result":
         return "unknown-ndmask-order"
+    if case["op"] == "mask_by_b" and case["phase"] == "before" and sig == "wrong-result" and len(case["src"]["shape"]) >= 2:
+        # the same listed family: a full-rank boolean mask (here b > 1, b chunked like a) on an n-d array with unknown
+        # chunks gives the selected elements in block order instead of C order
+        return "unknown-ndmask-order"
     if case["phase"] == "after" and zero_chunk and sig.startswith("after-resolve:refused") and case["op"] in ZERO_CHUNK_CLASS:
         return "resolved-zero-chunk:" + ZERO_CHUNK_CLASS[case["op"]]
     return sig
@@ -934,7 +938,7 @@ def run(ctx, replay=None):
         res = eval_case(case)
         bad = judge(case, res)
         if bad:
-            sig = replay.get("sig") or bad[0]
+            sig = classify(case, replay.get("sig") or bad[0], False)
             ctx.fail(sig, {"case": case, "what": bad[1], "program": describe(case)}, bad[1])
         return
     correspondence(ctx)
